@@ -55,6 +55,7 @@ def run(tier, seed):
                 jobs.append((v, z, '%s_%d' % (z.lower(), N), 'X'))
                 meta.append((v, z, N, 'X', 'z-segment'))
     a = vlib.pmap(impl.setf, jobs)
+    chk.again('Segment(name, version).<field> = value; to_er7(); parse_segment', impl.setf, jobs, a, 500)
     ech = {v: vlib.ec_hex(hl7apy.get_default_encoding_chars(v)) for v in VERSIONS}
     mo = vlib.run_driver(['SETF %s T %s %s %s %s' % (j[0], ech[j[0]], j[1], j[2], vlib.hexs(j[3])) for j in jobs])
     chk.correspond('Segment(S).<s_i> = value ; to_er7() vs Hl7.Pe.segSetStr/encSegment', jobs, [x.rsplit(' ', 1)[0] if x.startswith('ok ') else x for x in a], mo,
